@@ -282,6 +282,16 @@ def check_system(k, spec: SpecSys, snap, qs):
     return None
 
 
+def observed(snap_text):
+    """a snapshot without its alias labels (`own`, `bl`, `P`), which are relative to the other
+    systems' current state and only serve the correspondence with the model"""
+    a = parse_snap(snap_text)
+    if a is None:
+        return snap_text
+    return (tuple(a["names"]), tuple(a["ents"]), tuple(sorted(a["reads"].items(), key=str)),
+            tuple((n, tuple((f, x) for f, x in v.items() if f not in ("own", "bl"))) for n, v in sorted(a["vars"].items())))
+
+
 def diff_kind(old, new) -> str:
     a, b = parse_snap(old), parse_snap(new)
     if a is None or b is None:
@@ -337,7 +347,8 @@ def oracle(case: Case, impl_out: str):
                         p = systems[p].parent
                         if p == tgt:
                             s.judged = False
-        if valid and not ok:
+        ctx_judged = op[1] < len(systems) and (before.judged if op[0] == "M" else systems[op[1]].judged)
+        if valid and not ok and ctx_judged:
             mods = op[2] if op[0] == "R" else [op[2]] if op[0] == "M" else []
             src = systems[op[1]] if op[1] < len(systems) else None
             seen_upd = set()
@@ -360,7 +371,7 @@ def oracle(case: Case, impl_out: str):
             return ("harness:systems-misaligned", f"{len(cur)} systems alive, expected {len(systems)}")
         # -- (1) nothing but the target changes
         for j in range(len(prev)):
-            if cur[j] == prev[j]:
+            if cur[j] == prev[j] or observed(cur[j]) == observed(prev[j]):
                 continue
             exempt = False
             if tgt is not None:
@@ -544,8 +555,8 @@ class Gen:
                     cd = self.update_def(n, info[n], lower_of(n), pnames)
                 else:
                     cd = self.classdef(n, lower_of(n), pnames, ents, dp="month")
-                if r.random() < 0.04 and cd["formulas"]:
-                    cd["end"] = cd["formulas"][0][0] - 1
+                if r.random() < 0.04 and cd["formulas"] and cd["formulas"][0][0] > 366:
+                    cd["end"] = cd["formulas"][0][0] - 1          # a formula that starts after `end`: refused
                 return ("upd", cd)
             if k == "rep":
                 n = r.choice(names)
@@ -560,8 +571,8 @@ class Gen:
                     cd.update(vt=info[n][0], default=r.choice([None, str(r.randint(-3, 9))]))
                 elif info[n][0] == "date" and cd["vt"] != "date":
                     cd.update(vt="date", formulas=[], si=None, default=None)
-                if r.random() < 0.04 and cd["formulas"]:
-                    cd["end"] = min(d for d, _ in cd["formulas"]) - 1 if min(d for d, _ in cd["formulas"]) > 1 else None
+                if r.random() < 0.04 and cd["formulas"] and min(d for d, _ in cd["formulas"]) > 366:
+                    cd["end"] = min(d for d, _ in cd["formulas"]) - 1
                 return ("rep", cd)
             if k in ("neu", "ann"):
                 pool = names + ([r.choice(NEWNAMES)] if r.random() < 0.08 else [])
@@ -604,6 +615,7 @@ class Gen:
                             cand |= {u["b"], u["b"] + 1}
         for n, items in params:
             cand |= {d for d, _ in items}
+        cand = {d for d in cand if d >= 1}
         queries = sorted(r.sample(sorted(cand), min(len(cand), r.randint(3, 6))))
         # simulation plan
         inputs = []
@@ -646,7 +658,7 @@ MALFORMED = [
 
 
 def generate(rng: random.Random, tier: str):
-    n = 260 if tier == "quick" else 5000
+    n = 2500 if tier == "quick" else 40000
     for i in range(n):
         g = Gen(rng)
         yield case_of(g.history(tier))
